@@ -9,7 +9,7 @@ protocol (exc_pending).  Own code, regenerated from /repo's IR on every run.
 usage: ir2c.py in.ll -o out.c --roots f,g [--cut h,i] [--alias REGEX=name ...]
                [--coroutine f,g] [--hook-access f,g] [--nsw-signed] [--map out.map]
 """
-import sys, re, struct, argparse, subprocess, hashlib, json
+import os, sys, re, struct, argparse, subprocess, hashlib, json
 sys.path.insert(0, __import__('os').path.dirname(__file__))
 from irparse import *
 
@@ -119,6 +119,7 @@ class Emitter:
         s.unmodelled = set()
         s.coroutine = set(args.coroutine); s.hook = set(args.hook_access)
         s.fp_slots = []    # (lvalue, bits, width) of float constants inside global data
+        s.coro_structs = []; s.coro_protos = []
         s.fnids = {}       # address-taken function -> fake address
         s.icalls = {}      # signature key -> (name, ret ctype, [param ctypes], vararg)
 
@@ -430,8 +431,9 @@ class Emitter:
                 gdefs.append((n, decl, init))
             else:
                 raise KeyError('unknown symbol ' + n)
-        o = ['/* generated by ir2c.py -- do not edit */\n#include "vrt.h"\n']
-        o.append(s.emit_aggs())
+        o = ['/* generated by ir2c.py -- do not edit */\n#include "vrt.h"\n' + ''.join(x + '\n' for x in s.args.prologue)]
+        s.aggs_text = s.emit_aggs()
+        o.append('/*AGGS*/\n')
         for n, d, i in gdefs:
             if d.startswith('extern') or i is None: o.append(d if d.endswith(';') or d.endswith('*/') else d + ';')
             else: o.append('extern ' + d + ';')
@@ -456,7 +458,7 @@ class Emitter:
 
 class FuncEmit:
     def __init__(s, E, f):
-        s.E = E; s.f = f; s.locals = {}; s.code = []; s.tmpn = 0
+        s.E = E; s.f = f; s.locals = {}; s.code = []; s.tmpn = 0; s.nyield = 0; s.coro_mem = []
         s.coro = f.name in E.coroutine; s.hook = f.name in E.hook
         s.types = {}   # local name -> Ty
         for t, n in f.params: s.types[n] = t
@@ -471,14 +473,17 @@ class FuncEmit:
                         I.ty = t
                     s.types[I.res] = I.ty
     def lname(s, n):
-        return 'v_' + san(n)
+        return ('C->v_' if s.coro and n in s.ctxvals else 'v_') + san(n)
+    def ctxname(s): return 'struct %s_ctx' % s.E.gname(s.f.name)
     def lab(s, n): return 'L_' + san(n)
     def proto(s):
         E = s.E; f = s.f
+        if s.coro: return 'void %s__step(%s* C)' % (E.gname(f.name), s.ctxname())
         ps = ', '.join('%s %s' % (E.ctype(t), s.lname(n)) for t, n in f.params)
         if f.vararg: ps += ', ...'
         return '%s %s(%s)' % (E.ctype(f.ret), E.gname(f.name), ps or 'void')
     def retdummy(s):
+        if s.coro: return '{ C->h.done = 1; return; }'
         rt = s.E.L.resolve(s.f.ret)
         if rt.k == 'void': return 'return;'
         if rt.k in ('struct', 'array'): return 'return (%s){0};' % s.E.ctype(rt)
@@ -513,9 +518,125 @@ class FuncEmit:
                 parts.append('%s = %s;' % (s.lname(I.res), s.v(src)))
         return '{ ' + ' '.join(parts) + ' goto %s; }' % s.lab(to)
 
+    # ---- typed lowering of constant-size memcpy / memset (--typed-mem): word-wise copies through uint64_t turn the
+    # pointers stored in a typed heap object into integers, which CBMC cannot follow; per-field copies keep them pointers
+    def leaves(s, t, base, out):
+        L = s.E.L; t = L.resolve(t)
+        if t.k == 'struct':
+            for i, f in enumerate(t.fields): s.leaves(f, base + L.field_offset(t, i), out)
+        elif t.k in ('array', 'vector'):
+            sz = L.size(t.el)
+            for i in range(t.n): s.leaves(t.el, base + i * sz, out)
+        elif t.k in ('int', 'float', 'double', 'ptr'): out.append((base, t))
+        else: raise ValueError('leaf ' + t.k)
+    def points_into(s, v, depth=0):
+        """(element type, byte offset inside one element) of what pointer value v addresses, or None"""
+        L = s.E.L
+        if v[0] != 'local' or depth > 6: return None
+        if not hasattr(s, 'defs'): s.defs = {J.res: J for lab, ins in s.f.blocks for J in ins if J.res is not None}
+        J = s.defs.get(v[1])
+        pt = L.resolve(v[2])
+        here = (L.resolve(pt.el), 0) if pt.k == 'ptr' and L.resolve(pt.el).k in ('struct', 'array', 'int', 'double', 'ptr') and not (L.resolve(pt.el).k == 'int' and L.resolve(pt.el).n == 8) else None
+        if J is None: return here
+        if J.op == 'bitcast': return s.points_into(J.a[0], depth + 1) or here
+        if J.op == 'call' and here is None:
+            # an untyped heap block: the type the program casts it to
+            for K in s.defs.values():
+                if K.op == 'bitcast' and K.a[0][0] == 'local' and K.a[0][1] == v[1]:
+                    kt = L.resolve(K.ty)
+                    if kt.k == 'ptr' and L.resolve(kt.el).k in ('struct', 'array', 'double', 'ptr'): return (L.resolve(kt.el), 0)
+        if J.op == 'getelementptr':
+            bt, base, idx, inb = J.a; t = L.resolve(bt); off = 0
+            for k, ix in enumerate(idx):
+                if k == 0: continue                     # which element: the layout repeats
+                if ix[0] != 'int': return here
+                if t.k == 'struct': off += L.field_offset(t, ix[1]); t = L.resolve(t.fields[ix[1]])
+                elif t.k in ('array', 'vector'): off += ix[1] * L.size(t.el); t = L.resolve(t.el)
+                else: return here
+            return (L.resolve(bt), off)
+        return here
+    def typed_leaves(s, v, n):
+        """scalar leaves [(offset relative to v, type)] exactly covering n bytes at pointer v, or None"""
+        pi = s.points_into(v)
+        if pi is None: return None
+        t, off = pi; out = []
+        try: s.leaves(t, 0, out)
+        except ValueError: return None
+        L = s.E.L; tot = L.size(t)
+        if tot == 0: return None
+        sel = []; pos = off
+        # the region may run over several consecutive elements
+        while pos < off + n:
+            e, o = divmod(pos, tot)
+            hit = [(lo, lt) for lo, lt in out if lo == o]
+            if not hit: return None                      # starts in padding or inside a scalar
+            lo, lt = hit[0]; sz = L.size(lt)
+            if pos + sz > off + n: return None
+            sel.append((pos - off, lt)); pos += sz
+            nxt = [lo2 for lo2, _ in out if lo2 >= o + sz]
+            pos = e * tot + (min(nxt) if nxt else tot) if pos < off + n else pos
+        return sel
+    def alloc_elem_type(s, res):
+        if res is None: return None
+        for lab, ins in s.f.blocks:
+            for J in ins:
+                if J.op == 'bitcast' and J.a[0][0] == 'local' and J.a[0][1] == res:
+                    pt = s.E.L.resolve(J.ty)
+                    if pt.k != 'ptr': continue
+                    et = s.E.L.resolve(pt.el)
+                    if et.k in ('struct', 'int', 'double', 'ptr') and not (et.k == 'int' and et.n == 8): return s.E.ctype(et)
+        return None
+    YIELDS = ('pthread_mutex_lock', 'pthread_cond_wait', 'pthread_join')
+    def live_across_yields(s):
+        """SSA values whose live range crosses a blocking call: only these (and the parameters) need to live in the context"""
+        f = s.f
+        def uses_of(x, acc):
+            if isinstance(x, tuple) and len(x) == 3 and x[0] == 'local' and isinstance(x[1], str): acc.add(x[1]); return
+            if isinstance(x, (tuple, list)):
+                for y in x: uses_of(y, acc)
+        succ = {}; blocks = dict(f.blocks)
+        for lab, ins in f.blocks:
+            T = ins[-1]
+            if T.op == 'br': succ[lab] = [T.a[0]] if len(T.a) == 1 else [T.a[1], T.a[2]]
+            elif T.op == 'switch': succ[lab] = [T.a[1]] + [l for _, l in T.a[2]]
+            elif T.op in ('ret', 'unreachable', 'resume'): succ[lab] = []
+            else: raise ValueError('coroutine mode: unsupported terminator ' + T.op)
+        def is_yield(I):
+            return I.op == 'call' and I.a[0][0] == 'global' and I.a[0][1] in s.YIELDS
+        live_in = {lab: set() for lab, _ in f.blocks}; live_out = {lab: set() for lab, _ in f.blocks}
+        changed = True
+        while changed:
+            changed = False
+            for lab, ins in reversed(f.blocks):
+                out = set()
+                for sl in succ[lab]:
+                    phid = {I.res for I in blocks[sl] if I.op == 'phi'}
+                    out |= (live_in[sl] - phid)
+                    for I in blocks[sl]:
+                        if I.op == 'phi':
+                            for v_, lb in I.a:
+                                if lb == lab: uses_of(v_, out)
+                live = set(out)
+                for I in reversed(ins):
+                    if I.op == 'phi': live.discard(I.res); continue
+                    if I.res is not None: live.discard(I.res)
+                    uses_of(I.a, live)
+                live |= {I.res for I in ins if I.op == 'phi'} & set()   # phi results are defined at block entry
+                if out != live_out[lab] or live != live_in[lab]: live_out[lab] = out; live_in[lab] = live; changed = True
+        across = set()
+        for lab, ins in f.blocks:
+            live = set(live_out[lab])
+            for I in reversed(ins):
+                if I.op == 'phi': continue
+                if I.res is not None: live.discard(I.res)
+                if is_yield(I): across |= live
+                uses_of(I.a, live)
+        return across
+
     def emit(s):
         E = s.E; f = s.f
         s.blockmap = {lab: ins for lab, ins in f.blocks}
+        if s.coro: s.ctxvals = s.live_across_yields() | {n for t, n in f.params}
         # body
         for bi, (lab, ins) in enumerate(f.blocks):
             s.cur = lab
@@ -525,11 +646,30 @@ class FuncEmit:
                     s.instr(I)
                 except Exception as e:
                     raise RuntimeError('in %s: %s\n  %s: %s' % (f.name, I.line[:200], type(e).__name__, e))
-        decls = []
+        decls = []; cdecls = []
         for lab, ins in f.blocks:
             for I in ins:
                 if I.res is not None and E.L.resolve(I.ty).k != 'void':
-                    decls.append('  %s %s;\n' % (E.ctype(I.ty), s.lname(I.res)))
+                    (cdecls if s.coro and I.res in s.ctxvals else decls).append('  %s %s;\n' % (E.ctype(I.ty), 'v_' + san(I.res)))
+        if s.coro:
+            # parameters, fixed allocas and the SSA values live across a blocking call live in the context; execution
+            # resumes at the recorded yield point, every other value is an ordinary local of the step function
+            fields = ''.join('  %s v_%s;\n' % (E.ctype(t), san(n)) for t, n in f.params) + ''.join(cdecls) + ''.join(s.coro_mem)
+            rt = E.L.resolve(f.ret)
+            struct = '%s {\n  struct vr_coro h;\n%s%s};\n' % (s.ctxname(), ('  %s ret;\n' % E.ctype(rt)) if rt.k != 'void' else '', fields)
+            E.coro_structs.append(struct)
+            init = 'static inline void %s__init(%s* C%s) {\n  static const %s zero; *C = zero;   /* not memset: byte-wise updates of a large struct are costly for symex */\n%s}\n' % (E.gname(f.name), s.ctxname(),
+                ''.join(', %s p%d' % (E.ctype(t), i) for i, (t, n) in enumerate(f.params)), s.ctxname(),
+                ''.join('  C->v_%s = p%d;\n' % (san(n), i) for i, (t, n) in enumerate(f.params)))
+            E.coro_protos.append(s.proto() + ';\n' + s.proto().replace('__step(', '__resume(') + ';\n' + s.proto().replace('__step(', '__start(') + ';\n' + init)
+            # the program counter is re-assigned as a constant in every case so that symex resumes exactly one segment;
+            # mode 1 (resume only) / 2 (start only) let the harness exclude what program order already excludes
+            disp = ('  switch (C->h.pc) { case 0: if (mode == 1) { vr_unreachable(); return; } break;%s default: vr_unreachable(); return; }\n' %
+                    ''.join(' case %d: if (mode == 2) { vr_unreachable(); return; } C->h.pc = %d; goto R_%d;' % (k, k, k) for k in range(1, s.nyield + 1)))
+            g = E.gname(f.name)
+            wrappers = ('void %s__step(%s* C) { %s__run(C, 0); }\nvoid %s__resume(%s* C) { %s__run(C, 1); }\nvoid %s__start(%s* C) { %s__run(C, 2); }\n' %
+                        (g, s.ctxname(), g, g, s.ctxname(), g, g, s.ctxname(), g))
+            return '\nstatic void %s__run(%s* C, int mode) {\n%s%s%s}\n%s' % (g, s.ctxname(), ''.join(decls), disp, ''.join(s.code), wrappers)
         return '\n%s {\n%s%s}\n' % (s.proto(), ''.join(decls), ''.join(s.code))
 
     def access(s, ptr, size, wr):
@@ -601,7 +741,9 @@ class FuncEmit:
             if cnt is None or cnt[0] == 'int':
                 n = 1 if cnt is None else cnt[1]
                 if s.coro:
-                    s.w('%s = vr_coro_alloc(%d);' % (r, sz * n))
+                    mem = 'm_' + san(I.res)
+                    s.coro_mem.append('  %s __attribute__((aligned(%d)));\n' % (E.memtype_decl(Ty('array', max(n, 1), t), mem), max(align, 1)))
+                    s.w('%s = (char*)C->%s;' % (r, mem))
                 else:
                     s.code.insert(0, '  %s __attribute__((aligned(%d)));\n' % (E.memtype_decl(Ty('array', max(n, 1), t), r + '_mem'), max(align, 1)))
                     s.w('%s = (char*)%s_mem; VR_POISON(%s_mem, sizeof %s_mem);' % (r, r, r, r))
@@ -647,7 +789,8 @@ class FuncEmit:
             s.w('  default: %s' % s.edge(s.cur, d))
             s.w('}')
         elif op == 'ret':
-            if I.a[0] is None: s.w('return;')
+            if s.coro: s.w(('C->ret = %s; ' % s.v(I.a[0]) if I.a[0] is not None else '') + 'C->h.done = 1; return;')
+            elif I.a[0] is None: s.w('return;')
             else: s.w('return %s;' % s.v(I.a[0]))
         elif op == 'unreachable':
             s.w('vr_unreachable(); %s' % s.retdummy())
@@ -716,6 +859,16 @@ class FuncEmit:
         av = [a for a, info in args]
         if name and name.startswith('llvm.'):
             return s.intrinsic(I, r, name, av, finish)
+        if s.coro and name in ('pthread_mutex_lock', 'pthread_cond_wait', 'pthread_join'):
+            # yield point: the scheduler performs the operation when it is enabled and then resumes this context
+            s.nyield += 1; k = s.nyield
+            opn = {'pthread_mutex_lock': 1, 'pthread_cond_wait': 2, 'pthread_join': 3}[name]
+            a0 = s.v(av[0]) if E.L.resolve(av[0][2]).k == 'ptr' else '(char*)(uintptr_t)%s' % s.v(av[0])
+            a1 = (s.v(av[1]) if len(av) > 1 and E.L.resolve(av[1][2]).k == 'ptr' else '(char*)0')
+            s.w('C->h.pc = %d; C->h.blk_op = %d; C->h.blk_a0 = %s; C->h.blk_a1 = %s; return; R_%d: ;' % (k, opn, a0, a1, k))
+            finish('0', False); return
+        if s.coro and name == 'pthread_exit':
+            s.w('C->h.done = 1; return;'); return
         if name == '__cxa_throw':
             tid = None
             try: tid = s.typeid_of(av[1])
@@ -746,6 +899,14 @@ class FuncEmit:
             finish('(uint64_t)vr_strlen(%s)' % cargs[0], False); return
         if name == 'strcmp' and name not in E.mod.funcs:
             finish('(uint32_t)vr_strcmp(%s, %s)' % (cargs[0], cargs[1]), False); return
+        if E.args.typed_malloc and name in ('malloc', 'realloc') and name not in E.mod.funcs:
+            # the element type the program gives the block (first bitcast of the result): lets CBMC type the dynamic object,
+            # which keeps pointers stored in it precise
+            et = s.alloc_elem_type(I.res) or 'uint64_t'   # no cast in sight: 8-byte words (exact size is kept, see VR_MALLOC)
+            if et is not None:
+                if name == 'malloc': finish('(char*)VR_MALLOC(%s, %s)' % (et, cargs[0]), False)
+                else: finish('(char*)VR_REALLOC(%s, %s, %s)' % (et, cargs[0], cargs[1]), False)
+                return
         if name in ('memcpy', 'memmove', 'memset') and name not in E.mod.funcs:
             finish('(char*)vr_%s(%s)' % (name, ', '.join(cargs)), False); return
         if name is not None:
@@ -772,9 +933,24 @@ class FuncEmit:
         rt = E.L.resolve(I.ty)
         if name.startswith('llvm.memcpy') or name.startswith('llvm.memmove'):
             fn_ = 'memcpy' if 'memcpy' in name else 'memmove'
+            if E.args.typed_mem and av[2][0] == 'int' and 0 < av[2][1] <= 512 and fn_ == 'memcpy':
+                la = s.typed_leaves(av[0], av[2][1]); lb = s.typed_leaves(av[1], av[2][1])
+                if la is not None and la == lb:
+                    for o, lt in la:
+                        s.access(a[1] + ' + %d' % o, E.L.size(lt), 0); s.access(a[0] + ' + %d' % o, E.L.size(lt), 1)
+                        s.w('*(%s*)(%s + %d) = *(%s*)(%s + %d);' % (E.ctype(lt), a[0], o, E.ctype(lt), a[1], o))
+                    finish(a[0], False); return
             if s.hook: s.w('vh_access(%s, %s, 1); vh_access(%s, %s, 0);' % (a[0], a[2], a[1], a[2]))
             finish('vr_%s(%s, %s, %s)' % (fn_, a[0], a[1], a[2]), False)
         elif name.startswith('llvm.memset'):
+            if E.args.typed_mem and av[2][0] == 'int' and 0 < av[2][1] <= 512 and av[1][0] == 'int' and av[1][1] == 0:
+                la = s.typed_leaves(av[0], av[2][1])
+                if la is not None:
+                    for o, lt in la:
+                        s.access(a[0] + ' + %d' % o, E.L.size(lt), 1)
+                        s.w('*(%s*)(%s + %d) = %s;' % (E.ctype(lt), a[0], o, '(char*)0' if lt.k == 'ptr' else '0'))
+                    finish(a[0], False); return
+            if s.hook: s.w('vh_access(%s, %s, 1);' % (a[0], a[2]))
             finish('vr_memset(%s, %s, %s)' % (a[0], a[1], a[2]), False)
         elif name == 'llvm.stacksave': finish('(char*)0', False)
         elif base in ('smax', 'smin', 'umax', 'umin'):
@@ -844,6 +1020,9 @@ def main():
     ap.add_argument('--alias', action='append', default=[])
     ap.add_argument('--coroutine', default=''); ap.add_argument('--hook-access', default='')
     ap.add_argument('--nsw-signed', action='store_true')
+    ap.add_argument('--typed-mem', action='store_true', help='lower constant-size memcpy/memset(0) on typed objects to per-field accesses')
+    ap.add_argument('--typed-malloc', action='store_true', help='emit VR_MALLOC(T, n) for malloc/realloc results the program casts to T*')
+    ap.add_argument('--prologue', action='append', default=[], help='line inserted after the runtime include')
     ap.add_argument('--map')
     a = ap.parse_args()
     mod = parse_module(open(a.input).read())
@@ -859,6 +1038,13 @@ def main():
         if len(set(m)) != 1: raise SystemExit('ir2c: alias %s matches %d symbols: %s' % (spec, len(m), m[:5]))
         E.names[m[0]] = 'ir_' + nice
     text = E.run()
+    if E.coro_structs:
+        # aggregate types, contexts, step prototypes and initialisers go to a header shared with the scheduler harness
+        hname = a.o + '.coro.h'
+        open(hname, 'w').write('#ifndef IR_CORO_H\n#define IR_CORO_H\n#include "vrt.h"\n' + E.aggs_text + ''.join(E.coro_structs) + ''.join(E.coro_protos) + '#endif\n')
+        text = text.replace('/*AGGS*/\n', '#include "%s"\n' % os.path.basename(hname))
+    else:
+        text = text.replace('/*AGGS*/\n', E.aggs_text)
     open(a.o, 'w').write(text)
     if a.map:
         json.dump({'names': E.names, 'demangled': {n: dem.get(n, n) for n in E.names}, 'unmodelled': sorted(E.unmodelled),
